@@ -9,17 +9,46 @@ COMPONENTS = ["s_mdwire", "mdcodec"]
 T4 = ["MdWire"]
 PROOF_MODULES = ["GrpcProofs.Properties.C09"]
 THEOREMS = ["GrpcProofs.C09." + t for t in (
-)]
+    "md_roundtrip_partial", "per_key_order", "transport_added_keys", "md_roundtrip_counterexample_host",
+    "md_roundtrip_counterexample_connection", "invalid_md_fails_before_send", "validate_pair_iff",
+    "reserved_never_sent_client", "reserved_never_sent_server", "reserved_never_surfaced_server_partial",
+    "reserved_never_surfaced_header_partial", "reserved_never_surfaced_trailer_partial",
+    "content_type_surfaced_counterexample_server", "content_type_surfaced_counterexample_client",
+    "header_roundtrip", "trailer_roundtrip", "valid_md_wire_ok", "bin_value_roundtrip", "bin_value_padded_peer",
+    "append_lowercases", "reserved_table", "server_switch_names")]
 DESIGN_REF = "DESIGN.md section 8, C09"
 TECHNIQUE = ("Lean 4 theorems about a model of newClientStream validation -> createHeaderFields -> server operateHeaders -> handler metadata "
              "and writeHeaderLocked/writeStatus -> client operateHeaders (list induction, base64 arithmetic by omega, decide over the regenerated "
              "reserved/whitelist tables) + T2 end-to-end correspondence (real grpc.Server and grpc.NewClient over bufconn in a synctest bubble) "
              "+ T1 on the codec/validation functions + T4 regenerated header tables")
-LEVEL_TEXT = ""
-LEVEL_NOTE = ""
-GAP = ""
-ASSUMPTIONS = []
-RULE = ""
+LEVEL_TEXT = ("Machine-checked Lean proofs about a model of the metadata path: for every valid outgoing MD + appended pairs (no host/connection key) the "
+              "handler's metadata has, for EVERY key, the transport's values followed by the user's in the order given; for every header/trailer MD the "
+              "client's Header()/Trailer() has exactly the server's values per key; reserved names are never produced from user metadata (any MD) and, for "
+              "ANY field list a peer may send, never surface except :authority, user-agent and (finding F17, proved to be a counterexample) content-type; "
+              "invalid outgoing metadata yields no fields at all; binary values of any bytes round-trip, padded or raw; validated metadata is always "
+              "acceptable to the peer's HTTP/2 framer. The model is diffed against real RPCs over bufconn and against the codec/validation functions on every run.")
+LEVEL_NOTE = ("Readings: (1) 'exactly the client's metadata' is per key, modulo the keys the transport adds (:authority, user-agent allowed by the statement; "
+              "content-type = F17); a key with an empty value list is unobservable; (2) the last clause (invalid metadata fails with INTERNAL before anything is "
+              "sent) is read client-side (newClientStream); on the server ServerStream.SetHeader/SendHeader validate and return INTERNAL, ServerStream.SetTrailer "
+              "only logs, grpc.SetHeader/SendHeader/SetTrailer(ctx) do not validate (F10): invalid server metadata is outside the statement's domain, the monitor "
+              "does not judge those RPCs (observed and modelled: names the framer rejects make the client fail with INTERNAL and lose the handler's status; "
+              "non-printable values pass through); (3) a handler-supplied grpc-status-details-bin trailer is interpreted by the client's status logic (C10), the "
+              "status clause is not judged on those RPCs; (4) AppendToOutgoingContext keys with bytes >= 0x80 (strings.ToLower is Unicode-aware) are outside the "
+              "model. Trusted, modelled and differentially tied but not proved: encoding/base64 port, HPACK/http2 framing (fields delivered as queued; the "
+              "framer's name/value validity checks are modelled), Go map iteration order (cross-key order is not observable in an MD).")
+GAP = ("HPACK and HTTP/2 framing, header-list-size limits, per-RPC credentials / stats handlers / binary logging adding their own keys, "
+       "grpc-accept-encoding and grpc-timeout added by the transport when compressors/deadlines are configured (harness uses none), retries")
+ASSUMPTIONS = ["the http2 framer/HPACK deliver header fields exactly as queued, or reject the frame per validWireHeaderFieldName / ValidHeaderFieldValue",
+               "no compressor registered, no deadline, no per-RPC credentials (transport adds only :method :scheme :path :authority content-type user-agent te)"]
+RULE = ("s_mdwire: one real RPC per op (unary, stream trailers-only, stream with a message): client metadata as a raw MD literal given to "
+        "NewOutgoingContext plus pairs appended with AppendToOutgoingContext; handler records FromIncomingContext and publishes header/trailer MD through "
+        "ServerStream.SetHeader/SendHeader/SetTrailer or grpc.SetHeader/SendHeader/SetTrailer; client records status, Header(), Trailer(). Systematic part: "
+        "every key of the pools (23 valid incl. -bin and grpc-* names, 15 reserved/pseudo, 14 invalid, 9 mixed-case) alone in each position, every listed "
+        "value (printable, empty, control bytes, non-ASCII) in each position, binary values of length 0..7; random part: cases of 20 RPCs with 0-4 keys x 0-3 "
+        "values per MD, invalid/reserved/special keys mixed in. RPCs that hit a listed known finding (host, connection) travel in single-op cases; F17 is "
+        "judged on three dedicated `probe` ops. mdcodec: isReservedHeader/isWhitelistedHeader on all 1- and 2-byte names and the pools, Validate on every "
+        "byte in key and value positions and random MDs, encode/decodeMetadataHeader on valid (raw and padded) and mutated base64, AppendToOutgoingContext "
+        "lower-casing on all ASCII bytes. A case is non-trivial when at least one handler ran.")
 
 
 def hexs(bs):
@@ -187,6 +216,10 @@ def gen(rng, tier):
         if k not in (b"",):
             ops.append(op("rpc", "b1", [], [], "ss.send", [(k, [v])], "ss.set", [(k, [v, v])], 5))
             ops.append(op("rpc", "u", [], [], "ctx.set", [(k, [v])], "ctx.set", [(k, [v])], 0))
+    # same key in the base MD and appended: per-key order (base MD values first, then appended, in order)
+    ops.append(op("rpc", "u", [(b"k", [b"1", b"2"]), (b"j", [b"x"])], [(b"K", b"3"), (b"j", b"y"), (b"k", b"4")], "none", [], "none", [], 0))
+    ops.append(op("rpc", "b1", [(b"o-bin", [b"\x01", b"\x02"])], [(b"O-BIN", b"\x03"), (b"o-bin", b"")], "ss.send", [(b"h", [b"1", b"2", b"3"])], "ss.set", [(b"t", [b"3", b"2", b"1"])], 0))
+    ops.append(op("rpc", "u", [(b"user-agent", [b"mine"]), (b":authority", [b"evil"])], [(b"User-Agent", b"mine2"), (b":authority", b"evil2")], "none", [], "none", [], 0))
     for v in ASCII_VALS + BAD_VALS:
         ops.append(op("rpc", "u", [(b"k", [v]), (b"k-bin", [v])], [(b"k", v)], "ctx.set", [(b"h", [v])], "ctx.set", [(b"t-bin", [v])], 0))
     for n in range(0, 8):
